@@ -107,6 +107,8 @@ mod lifecycle;
 mod pragma;
 mod toast;
 mod transaction;
+#[cfg(kahflane_turdb_verif)]
+mod verif_state;
 pub(crate) mod query;
 
 pub use database::Database;
